@@ -27,7 +27,41 @@ import (
 
 const horizon = 10 * time.Second
 
-func binDir() string { return filepath.Join(mc.VerifDir, "bin") }
+var (
+	binDirOnce sync.Once
+	binDirPath string
+)
+
+// binDir is the directory of the probe programs. Programs that run under another uid must be able to reach it: when
+// the machinery lives below a directory that is closed to others (e.g. a snapshot under /root), the probes are copied
+// to this process's scratch directory once.
+func binDir() string {
+	binDirOnce.Do(func() {
+		binDirPath = filepath.Join(mc.VerifDir, "bin")
+		open := true
+		for d := binDirPath; d != "/" && d != "."; d = filepath.Dir(d) {
+			if fi, err := os.Stat(d); err != nil || fi.Mode().Perm()&0005 != 0005 {
+				open = false
+			}
+		}
+		if open {
+			return
+		}
+		dst := filepath.Join(tmpRoot(), "probes")
+		os.MkdirAll(dst, 0755)
+		ents, _ := os.ReadDir(binDirPath)
+		for _, e := range ents {
+			if e.IsDir() || strings.HasPrefix(e.Name(), "vcheck") {
+				continue
+			}
+			if b, err := os.ReadFile(filepath.Join(binDirPath, e.Name())); err == nil {
+				os.WriteFile(filepath.Join(dst, e.Name()), b, 0755)
+			}
+		}
+		binDirPath = dst
+	})
+	return binDirPath
+}
 
 func probe(name string) string { return filepath.Join(binDir(), name) }
 
